@@ -296,6 +296,17 @@ fn cmd_run(args: &[String]) -> R<i32> {
                 }
                 continue;
             }
+            // a violation must replay exactly; otherwise it is a harness problem, never a verdict
+            let again = run_list(&tier, out.seed, &out.config, &out.events, &tmp, "c", None)?;
+            if again.violation.as_ref().map(signature).as_deref() != Some(sig.as_str()) {
+                sum.harness_errors.push(format!(
+                    "FLAKY-REPLAY seed {} signature {} did not reproduce (got {:?})",
+                    out.seed,
+                    sig,
+                    again.violation.as_ref().map(signature)
+                ));
+                continue;
+            }
             seen_sigs.insert(sig.clone());
             let (events, vmin, execs) = minimise(&tier, &out, &tmp, 120)?;
             let _ = std::fs::create_dir_all(&replays);
